@@ -30,13 +30,29 @@ var threeTerms = []spec.SynEntry{{Term: "a", Syns: []string{"x"}}, {Term: "c", S
 // thesaurus exists (the field is there) but holds nothing.
 var noSynonyms = []spec.SynEntry{{Term: "a", Syns: nil}}
 
-// NumSynDocKinds = 1 ordinary + 2 thesauri x 7 entry shapes + 2 x the three-term shape + 2 x the synonym-less shape.
-var NumSynDocKinds = 1 + 2*len(synEntries) + 2 + 2
+// NumSynDocKinds = 1 ordinary + 2 thesauri x 7 entry shapes + 2 x the three-term shape + 2 x
+// the synonym-less shape + 2 documents that feed BOTH thesauri (kinds 19 / 20: s1 then s2,
+// s2 then s1; each field introduces a term).
+// Kind 21: an ordinary text document whose text field (stored, doc values) is NAMED s1 - field
+// names and thesaurus names share one name space inside a segment.
+var NumSynDocKinds = 1 + 2*len(synEntries) + 2 + 2 + 2 + 1
 
 func SynDoc(i int, kind int) spec.Doc {
 	id := fmt.Sprintf("d%d", i)
 	if kind == 0 {
 		return spec.Doc{ID: id, Fields: []spec.Field{{Name: "f", Len: 1, Stored: true, Value: []byte("x"), Toks: []spec.Tok{{Term: "x", Freq: 1}}}}}
+	}
+	if kind == 2*len(synEntries)+7 {
+		return spec.Doc{ID: id, Fields: []spec.Field{{Name: "s1", Len: 2, Stored: true, DV: true, Value: []byte("text in s1"),
+			Toks: []spec.Tok{{Term: "a", Freq: 1, Locs: []spec.Loc{{Pos: 1, Start: 0, End: 1}}}, {Term: "q", Freq: 1}}}}}
+	}
+	if kind > 2*len(synEntries)+4 {
+		f1 := spec.Field{Name: "s1", Kind: spec.Synonym, Syn: []spec.SynEntry{{Term: "a", Syns: []string{"x"}}}}
+		f2 := spec.Field{Name: "s2", Kind: spec.Synonym, Syn: []spec.SynEntry{{Term: "b", Syns: []string{"y", "x"}}}}
+		if kind == 2*len(synEntries)+6 {
+			f1, f2 = f2, f1
+		}
+		return spec.Doc{ID: id, IDLast: true, Fields: []spec.Field{f1, f2}}
 	}
 	if kind > 2*len(synEntries)+2 {
 		name := []string{"s1", "s2"}[kind-2*len(synEntries)-3]
@@ -64,7 +80,7 @@ func (c SynCase) Key() string { return fmt.Sprintf("syn/%v/%d", c.Docs, c.Mode) 
 func (c SynCase) NumSynDocs() int {
 	n := 0
 	for _, k := range c.Docs {
-		if k != 0 {
+		if k != 0 && k != 21 {
 			n++
 		}
 	}
@@ -72,8 +88,7 @@ func (c SynCase) NumSynDocs() int {
 }
 
 func SynBatches(tier string, emit func(SynCase)) {
-	maxN := 3
-	for n := 1; n <= maxN; n++ {
+	for n := 1; n <= 2; n++ {
 		Product(n, NumSynDocKinds, func(v []int) {
 			c := SynCase{Docs: v, Mode: 1026}
 			if c.NumSynDocs() == 0 {
@@ -82,6 +97,21 @@ func SynBatches(tier string, emit func(SynCase)) {
 			emit(c)
 		})
 	}
+	// three documents: every kind for thesaurus s1, a reduced set for s2 (in quick)
+	menu3 := []int{0, 1, 2, 3, 4, 5, 6, 7, 8, 10, 11, 15, 16, 17, 18, 19, 20, 21}
+	if tier == "thorough" {
+		menu3 = nil
+		for k := 0; k < NumSynDocKinds; k++ {
+			menu3 = append(menu3, k)
+		}
+	}
+	ProductOf(3, menu3, func(v []int) {
+		c := SynCase{Docs: v, Mode: 1026}
+		if c.NumSynDocs() == 0 {
+			return
+		}
+		emit(c)
+	})
 	if tier == "thorough" {
 		// N=4: two ordinary documents around two synonym documents, and 4 synonym docs of a reduced menu
 		ProductOf(4, []int{0, 1, 2, 4, 6, 9, 11, 12, 15}, func(v []int) {
